@@ -38,7 +38,9 @@ for pid in ALL:
         level_note=(
             'Static analysis only: necessary shape conditions of the '
             'property are decided on every site and path of the current '
-            'source; the behaviour itself is not executed. Not decided: '
+            'source; the package is not executed (single functions are '
+            'interpreted over small models where the text names a model). '
+            'Not decided: '
             + (meta.get('not_decided') or 'see DESIGN.md') +
             ' Trusted base: Python ast / Cython 3.0.0 parser, the '
             'primitive-semantics tables and idiom tables listed in '
@@ -52,7 +54,9 @@ manifest = dict(
     hooks=dict(
         guard='DD_VERIF',
         enable='none: the checks read source text only; nothing in /repo '
-               'is instrumented or executed',
+               'is instrumented, imported or executed (the model-based '
+               'rules interpret the syntax tree of single functions in '
+               'the checker\'s own evaluator)',
         baseline_off_cmd=BASELINE,
         source_commits=[],
         add_only=True),
@@ -64,14 +68,18 @@ manifest = dict(
             'repository-specific static analysis over Python ast and the '
             'Cython parse tree lowered to ast: table interpretation, '
             'path-sensitive dataflow, typestate, call-graph reachability, '
-            'writer/reader agreement'))],
+            'writer/reader agreement, finite-model interpretation of the '
+            'syntax tree of single functions (DESIGN section 13.2)'))],
     checks=checks,
     notes=(
         'Exit codes: 0 holds / only known findings; 1 VIOLATION; '
         '2 ANALYSIS-ERROR (vanished anchor, unparsable unit, self-test '
         'failure). Known findings: /verif/known_findings.json. The '
         'thorough tier adds the self-validation corpus '
-        '(ddverif/variants.py) on scratch copies.'),
+        '(ddverif/variants.py, the seeded changes of /verif/seeded and '
+        'the behaviour-preserving refactorings of /verif/benign) on '
+        'scratch copies, and the differential self-test of the '
+        'interpreter.'),
     not_applicable=na)
 with open(os.path.join(HERE, 'MANIFEST.json'), 'w') as f:
     json.dump(manifest, f, indent=1)
